@@ -255,6 +255,92 @@ type Pool struct {
 // AllDeterministic switches every pool to deterministic free-list behaviour in pass-through mode.
 var AllDeterministic bool
 
+// PoisonBytes (deterministic pass-through mode only): a *[]byte put back into a pool is filled with a pattern,
+// and the pattern is verified when the object is handed out again (and by VerifyPoison). A damaged pattern means
+// somebody wrote into the buffer after it had been returned - the precondition of one request's bytes turning up
+// in another's response. PoisonHook receives a description of every such finding.
+var (
+	PoisonBytes bool
+	PoisonHook  func(what string)
+	poisonMu    sync.Mutex
+	poisoned    = map[*[]byte]*Pool{}
+)
+
+const poisonByte = 0xDB
+
+func poison(p *Pool, x any) {
+	if b, ok := x.(*[]byte); ok && b != nil {
+		full := (*b)[:cap(*b)]
+		for i := range full {
+			full[i] = poisonByte
+		}
+		poisonMu.Lock()
+		poisoned[b] = p
+		poisonMu.Unlock()
+	}
+}
+
+func checkPoison(x any, when string) {
+	b, ok := x.(*[]byte)
+	if !ok || b == nil {
+		return
+	}
+	poisonMu.Lock()
+	_, was := poisoned[b]
+	delete(poisoned, b)
+	poisonMu.Unlock()
+	if !was {
+		return
+	}
+	full := (*b)[:cap(*b)]
+	for i, c := range full {
+		if c != poisonByte {
+			j := i
+			for j < len(full) && full[j] != poisonByte {
+				j++
+			}
+			if PoisonHook != nil {
+				PoisonHook(fmt.Sprintf("%s: bytes %d..%d of a %d-byte pooled buffer were overwritten after it had been returned to the pool (first bytes %q)", when, i, j-1, len(full), string(full[i:min(j, i+24)])))
+			}
+			return
+		}
+	}
+}
+
+// VerifyPoison checks every buffer that currently sits in a pool.
+func VerifyPoison(when string) {
+	poisonMu.Lock()
+	var l []*[]byte
+	for b := range poisoned {
+		l = append(l, b)
+	}
+	poisonMu.Unlock()
+	for _, b := range l {
+		poisonMu.Lock()
+		_, still := poisoned[b]
+		poisonMu.Unlock()
+		if !still {
+			continue
+		}
+		full := (*b)[:cap(*b)]
+		for i, c := range full {
+			if c != poisonByte {
+				j := i
+				for j < len(full) && full[j] != poisonByte {
+					j++
+				}
+				if PoisonHook != nil {
+					PoisonHook(fmt.Sprintf("%s: bytes %d..%d of a %d-byte pooled buffer were overwritten after it had been returned to the pool (first bytes %q)", when, i, j-1, len(full), string(full[i:min(j, i+24)])))
+				}
+				poisonMu.Lock()
+				delete(poisoned, b)
+				poisonMu.Unlock()
+				break
+			}
+		}
+	}
+}
+
 func (p *Pool) Get() any {
 	if vsched.Active() {
 		vsched.Point("Pool.Get", p)
@@ -281,6 +367,9 @@ func (p *Pool) Get() any {
 			x := p.free[n-1]
 			p.free = p.free[:n-1]
 			p.mu.Unlock()
+			if PoisonBytes {
+				checkPoison(x, "handing a pooled buffer out again")
+			}
 			return x
 		}
 		p.mu.Unlock()
@@ -308,6 +397,9 @@ func (p *Pool) Put(x any) {
 		return
 	}
 	if p.Deterministic || AllDeterministic {
+		if PoisonBytes {
+			poison(p, x)
+		}
 		p.mu.Lock()
 		p.free = append(p.free, x)
 		p.mu.Unlock()
